@@ -25,8 +25,10 @@ ca = os.path.join(C_KANI, "CRATE_ATTRS")
 if os.path.exists(ca):
     lib = os.path.join(repo, "src/lib.rs"); t = open(lib).read(); i = t.find("#![crate_type"); open(lib, "w").write(t[:i] + open(ca).read() + t[i:])
 for stem, (src, child, path) in K.harness_modules().items():
+    if "__cells" in stem and not os.environ.get("DEV_CELLS"):
+        continue
     with open(os.path.join(repo, "src", src + ".rs"), "a") as f:
-        f.write('\n#[cfg(kani)] #[path = "%s"] mod %s;\n' % (path, child))
+        f.write('\n#[cfg(kani)] #[path = "%s"] pub(crate) mod %s;\n' % (path, child))
 PY
 fi
 cd $D/repo
